@@ -939,3 +939,44 @@ def rule_annotation_length_kept(ctx):
                 ctx.holds("ANNLEN", key, f.where(c[5]), "the length written is `%s`" % render(a)[:50], nontrivial=True)
     ctx.floor("ANNLEN", 1, n, "(ANwriteann calls in hrepack functions that query ANannlen)")
     return n
+
+
+# ---------------------------------------------------------------------------------------------------------------------
+def rule_reserved_test_reachable(ctx):
+    """RESERVED (C18): hrepack must not copy the library's own bookkeeping objects (attribute Vdatas, dimension Vdatas, chunk
+    tables, ...) as if they were user objects; it recognises them with is_reserved(class).  All class names that predicate knows
+    are non-empty, so a call that sits under `class[0] == '\\0'` can never be true: the filter is dead and every attribute Vdata is
+    copied a second time as a lone Vdata."""
+    prog = ctx.prog
+    n = 0
+    for f in prog.funcs:
+        if "mfhdf/hrepack/" not in f.rel:
+            continue
+        sites = []
+
+        def vis(nn, st):
+            exprs = [nn[1]] if nn[0] in ("s", "if", "while") else []
+            for e in exprs:
+                for c in calls_in(e, True):
+                    if c[1] == "is_reserved" and c[3] and base_var(c[3][0]):
+                        v = base_var(c[3][0])
+                        dead = False
+                        for a in st:
+                            if a[0] != "if":
+                                continue
+                            for y in walk(a[1], True):
+                                if y[0] == "bin" and y[1] == "==" and kind(strip(y[2])) == "idx" and base_var(y[2]) == v and is_int(strip(y[2])[2], 0) and is_int(y[3], 0):
+                                    dead = True
+                        sites.append((c, v, dead))
+            return True
+        ast_walk(f.raw.get("ast"), vis)
+        for k, (c, v, dead) in enumerate(sites):
+            n += 1
+            key = "RESERVED:%s#%d" % (f.name, k + 1)
+            if dead:
+                ctx.violated("RESERVED", key, f.where(c[5]), "is_reserved(%s) is evaluated only when `%s[0] == '\\0'`, i.e. for an empty class, for which it is always false: "
+                             "reserved objects are never filtered out here" % (v, v))
+            else:
+                ctx.holds("RESERVED", key, f.where(c[5]), "is_reserved(%s) is reachable for non-empty classes" % v, nontrivial=True)
+    ctx.floor("RESERVED", 2, n, "(is_reserved calls in hrepack)")
+    return n
